@@ -38,11 +38,18 @@ func decimalString(r *Rng) string {
 
 func gtfsTimeString(r *Rng) (string, int) {
 	h, m, s := r.Intn(30), r.Intn(60), r.Intn(60)
+	if r.P(1, 6) {
+		// boundary values: midnight is a valid time whose duration is zero, the value a missing time also has
+		e := [][3]int{{0, 0, 0}, {0, 0, 0}, {0, 0, 1}, {24, 0, 0}, {23, 59, 59}, {0, 1, 0}, {1, 0, 0}}[r.Intn(7)]
+		h, m, s = e[0], e[1], e[2]
+	}
 	switch r.Intn(6) {
 	case 0:
 		return fmt.Sprintf("%d:%02d:%02d", h, m, s), (h*60+m)*60 + s
 	case 1:
-		h = 24 + r.Intn(30)
+		if h != 0 {
+			h = 24 + r.Intn(30)
+		}
 		return fmt.Sprintf("%d:%02d:%02d", h, m, s), (h*60+m)*60 + s
 	case 2:
 		return fmt.Sprintf(" %02d:%02d:%02d", h, m, s), (h*60+m)*60 + s
